@@ -169,6 +169,15 @@ pub assume_specification<'a, T: PartialEq<U>, U, A: std::alloc::Allocator>[ <&'a
 #[verifier::external_body]
 pub fn opaque_string() -> String { String::new() }
 
+/// rule R20: `E.iter().enumerate().rev().find(|(_, x)| x.m()).map(|(i, _)| i)`: the index of the last element satisfying m (TRUSTED)
+#[verifier::external_body]
+pub fn rposition_by<T, F: Fn(&T) -> bool>(v: &Vec<T>, f: F) -> (r: Option<usize>)
+    requires forall|x: &T| #[trigger] f.requires((x,)),
+    ensures match r {
+        Some(i) => i < v@.len() && f.ensures((&v@[i as int],), true) && forall|j: int| i < j < v@.len() ==> f.ensures((&#[trigger] v@[j],), false),
+        None => forall|j: int| 0 <= j < v@.len() ==> f.ensures((&#[trigger] v@[j],), false),
+    }
+{ unimplemented!() }
 /// rule R25: `v.extend(other)` with a Vec argument appends its elements in order
 pub fn vec_extend<T>(v: &mut Vec<T>, other: Vec<T>)
     ensures final(v)@ == old(v)@ + other@
